@@ -385,6 +385,8 @@ def run(chk):
     by_q = {}
     for f in fns:
         by_q.setdefault(f["q"], []).append(f)
+    from verif.callgraph import hidden_constructors
+    hidden_p = hidden_constructors(fns)
     clo = set()
     work = ["Opm::ScheduleStatic::ScheduleStatic", "Opm::Schedule::create_first"]
     for w_ in work:
@@ -396,7 +398,7 @@ def run(chk):
             continue
         clo.add(q)
         for f in by_q.get(q, []):
-            for c in f.get("callees", []):
+            for c in list(f.get("callees", [])) + sorted(hidden_p.get(q, ())):
                 if c in by_q and c not in clo:
                     work.append(c)
     QUERY = ("hasKeyword", "get", "operator[]", "getKeywordList", "count", "getKeyword", "index")
